@@ -14,6 +14,8 @@ use std::collections::BTreeSet;
 #[derive(Clone, Debug)]
 pub enum Op {
     Add(Spec),
+    /// add_assertion_envelope with something that is not an assertion (nor obscured): must be refused
+    AddInvalid(Spec, u8),
     AddDup(usize),
     AddDupObscured(usize, Obs),
     Remove(usize),
@@ -47,6 +49,7 @@ impl Op {
     pub fn name(&self) -> &'static str {
         match self {
             Op::Add(_) => "add",
+            Op::AddInvalid(..) => "add-non-assertion",
             Op::AddDup(_) => "add-duplicate",
             Op::AddDupObscured(..) => "add-duplicate-obscured",
             Op::Remove(_) => "remove",
@@ -100,6 +103,7 @@ impl Op {
     pub fn show(&self) -> String {
         match self {
             Op::Add(s) => format!("add({})", bridge::spec_model(s).show()),
+            Op::AddInvalid(s, k) => format!("add-non-assertion(kind {}, {})", k, bridge::spec_model(s).show()),
             Op::Replace(i, s) => format!("replace(#{}, {})", i, bridge::spec_model(s).show()),
             Op::ReplaceSubject(s) => format!("replace_subject({})", bridge::spec_model(s).show()),
             Op::ElideSet { targets, reveal, action } => format!(
@@ -149,6 +153,9 @@ fn small_env(src: &mut Src) -> Spec {
 /// Draw the next operation given the current model state (so indices and targets are meaningful).
 pub fn gen_op(src: &mut Src, m: &M) -> Op {
     let n_as = m.assertions().len();
+    if src.chance(10) {
+        return Op::AddInvalid(small_assertion(src), src.below(5) as u8);
+    }
     let w = [
         14, // add
         6,  // add dup
@@ -385,6 +392,20 @@ pub fn apply(e: &Envelope, m: &M, op: &Op) -> Applied {
             let a = bridge::build_a(s, &mut Src::new(&[]));
             let am = bridge::spec_model(s);
             Applied { result: e.add_assertion_envelope(a).map_err(|r| r.to_string()), predicted: Predicted::Exactly(m.add(am)) }
+        }
+        Op::AddInvalid(s, k) => {
+            // things that are neither an assertion (possibly decorated) nor obscured
+            let a = bridge::build_a(s, &mut Src::new(&[]));
+            let bad: Envelope = match k % 5 {
+                0 => a.wrap_envelope(),                                  // a wrapped assertion
+                1 => a.wrap_envelope().add_assertion("note", "signed-looking wrapper"), // ... with an assertion on the wrapper
+                2 => Envelope::new("just a leaf"),
+                3 => bridge::known(7),
+                _ => Envelope::new("leaf subject").add_assertion("with", "assertion"),   // a node whose subject is not an assertion
+            };
+            let via = k / 5;
+            let _ = via;
+            Applied { result: e.add_assertion_envelope(bad).map_err(|r| r.to_string()), predicted: Predicted::Error }
         }
         Op::AddDup(i) => {
             let a = e.assertions()[*i].clone();
